@@ -107,6 +107,18 @@ Theorem C14_index_range_is_64bit : forall idx len j, idx_in idx len = Some j <->
 Proof. exact idx_in_spec. Qed.
 Print Assumptions C14_index_range_is_64bit.
 
+(* ---- ARR_SLICE.  vm_array_slice copies and retains EVERY element of the range, independent of VmArray.elem_type (the code
+   generator tags array<array<int>>, array<struct>, map/filter/range results and the string broadcast as TAG_INT).  The model
+   has no element tag: the new array holds one counted reference per reference element of the copied range. *)
+Theorem C14_slice_retains_every_element : forall m s e c r rc o,
+  Inv m -> regs m = VRef c :: r -> get (hp m) c = Some (Live rc o) ->
+  let sub := firstn (e - s) (skipn s (ovals o)) in
+  exists m' i, run_uop (USlice s e) m = Ok m' /\ regs m' = VRef i :: VRef c :: r /\
+    get (hp m') i = Some (Live 1 (Obj KArr sub)) /\
+    forall x, x <> i -> rcof (hp m') x = rcof (hp m) x + cnt x (refs sub).
+Proof. exact slice_retains_every_element. Qed.
+Print Assumptions C14_slice_retains_every_element.
+
 (* ---- refuted: opcodes of vm.c that forget a reference (ref_count stays above the in-degree for ever => the object
    and everything it owns is never freed).  Each: a reachable exact state, one opcode, a non-exact (but safe) state. *)
 (* SUB/MUL/DIV/MOD type error path; not a finding: the VM stops with the error right after *)
@@ -147,6 +159,28 @@ Proof.
   exists m. split. reflexivity. split.
   - apply (run_exact ex_trap init_state m init_exact R). vm_compute. reflexivity.
   - vm_compute in R. inversion R. split; reflexivity.
+Qed.
+(* slice of an array of arrays (a TAG_INT array on the real VM): after the slice the inner array (id 0) is counted three
+   times - local 0, the source array, the slice; when the slice dies (POP) it is still live and exactly counted, and the
+   source can be read again *)
+Definition ex_slice : list instr :=
+  [IEnter 2; IArrNew; IStoreLocal 0; ILoadLocal 0; IArrLiteral 1; IStoreLocal 1;
+   ILoadLocal 1; IPushNon; IPushNon; IArrSlice 0%Z (Some 1%Z)].
+Example C14_ex_slice_counts :
+  exists m m2, run ex_slice init_state = Some (Ok m) /\ ExactInv m /\ rcof (hp m) 0 = 3 /\ indeg m 0 = 3 /\
+               run [IPop; ILoadLocal 1; IPushNon; IArrGet 0%Z] m = Some (Ok m2) /\ ExactInv m2 /\
+               rcof (hp m2) 0 = 3 /\ is_live (hp m2) 2 = false /\ peek m2 0 = VRef 0.
+Proof.
+  destruct (run ex_slice init_state) as [[m| | |]|] eqn:R; try (vm_compute in R; discriminate).
+  assert (X: ExactInv m) by (apply (run_exact ex_slice init_state m init_exact R); vm_compute; reflexivity).
+  destruct (run [IPop; ILoadLocal 1; IPushNon; IArrGet 0%Z] m) as [[m2| | |]|] eqn:R2;
+    try (vm_compute in R; inversion R; subst; vm_compute in R2; discriminate).
+  exists m, m2. split. reflexivity. split. exact X.
+  assert (X2: ExactInv m2).
+  { apply (run_exact _ m m2 X R2). vm_compute in R. inversion R; subst. vm_compute. reflexivity. }
+  vm_compute in R. inversion R; subst. vm_compute in R2. inversion R2; subst.
+  split. reflexivity. split. reflexivity. split. reflexivity. split. exact X2.
+  split. reflexivity. split; reflexivity.
 Qed.
 (* ... and releasing an object that is already freed is detected by the model (so no_use_after_free is not vacuous) *)
 Example C14_ex_uaf_detected :
